@@ -187,6 +187,9 @@ fn gen_where(rng: &mut Rng, s: &Src) -> String {
 pub fn gen_sql(rng: &mut Rng) -> (String, bool) {
     let s = gen_source(rng);
     let where_ = if rng.chance(1, 2) { format!(" WHERE {}", gen_where(rng, &s)) } else { String::new() };
+    // all the columns of a base table, under their own names, in another order — at the top, in a CTE and in a derived table
+    if rng.chance(1, 40) { return (rng.pick(&["SELECT d, c, b, a, e FROM t1", "SELECT g, a, f FROM t2", "WITH u AS (SELECT h, w, k FROM t3) SELECT k AS k, h AS h FROM u WHERE h > 10",
+        "SELECT s.g AS g, s.a AS a FROM (SELECT f, g, a FROM t2) AS s WHERE s.f > 0", "SELECT x.b AS b, t3.h AS h FROM (SELECT e, d, c, b, a FROM t1) AS x JOIN t3 ON x.e = t3.k"]).to_string(), false); }
     match rng.below(10) {
         // plain projection, optionally DISTINCT / ORDER BY / LIMIT (LIMIT only under a total order)
         0 | 1 | 2 => {
